@@ -85,8 +85,24 @@ func (t *vTransport) RoundTrip(r *http.Request) (*http.Response, error) {
 			Body: &failingBody{}, Request: r}, nil
 	}
 	code, _ := strconv.Atoi(o)
+	// answers carry the headers real backends put on them (by request number, so that every status is seen with
+	// and without): whether an answer counts as a failure is a matter of its status alone
+	h := http.Header{}
+	tn, _ := strconv.Atoi(vr.tid)
+	switch tn % 4 {
+	case 1:
+		h.Set("Retry-After", "5")
+		h.Set("Cache-Control", "no-store")
+	case 2:
+		h.Set("Content-Type", "application/problem+json")
+		h.Set("X-Error-Code", "E1234")
+	case 3:
+		h.Set("Retry-After", "Wed, 21 Oct 2026 07:28:00 GMT")
+		h.Set("Connection", "close")
+		h.Set("Warning", "199 - \"try later\"")
+	}
 	return &http.Response{StatusCode: code, Proto: "HTTP/1.1", ProtoMajor: 1, ProtoMinor: 1,
-		Header: http.Header{}, Body: io.NopCloser(strings.NewReader("")), Request: r}, nil
+		Header: h, Body: io.NopCloser(strings.NewReader("")), Request: r}, nil
 }
 
 func unesc(s string) string {
@@ -767,11 +783,18 @@ func (v *vLB) op(w []string) string {
 // fake connections for the WebSocket pool: identity + closed flag
 type vConn struct {
 	net.Conn
-	id     int
-	closed bool
+	id        int
+	closed    bool
+	failClose bool // Close reports an error (the peer has gone): the connection is closed all the same
 }
 
-func (c *vConn) Close() error { c.closed = true; return nil }
+func (c *vConn) Close() error {
+	c.closed = true
+	if c.failClose {
+		return errors.New("verif: close: broken pipe")
+	}
+	return nil
+}
 
 var (
 	vPool  *WebSocketPool
@@ -879,17 +902,25 @@ func stopScenario(w []string) string {
 		cfg.Backends = append(cfg.Backends, config.BackendConfig{Name: fmt.Sprintf("b%d", j), Address: be.URL})
 	}
 	cfg.HealthChecks.Active = config.ActiveHealthCheckConfig{Enabled: true, Interval: 1, Timeout: 1, Path: "/"}
-	if w[4] == "1" {
-		cfg.LoadBalancer.WebSocketPool = config.WebSocketPoolConfig{Enabled: true, MaxIdle: 2, MaxActive: 4, IdleTimeoutSeconds: 60}
+	if w[4] == "2" {
+		// the pool without active health checks: nothing but Stop itself is there to close it
+		cfg.HealthChecks.Active = config.ActiveHealthCheckConfig{}
+	}
+	if w[4] == "1" || w[4] == "2" {
+		cfg.LoadBalancer.WebSocketPool = config.WebSocketPoolConfig{Enabled: true, MaxIdle: 4, MaxActive: 8, IdleTimeoutSeconds: 60}
 	}
 	lb, err := NewLoadBalancer(cfg)
 	if err != nil {
 		return "stop setup-error"
 	}
-	var pooled *vConn
+	// several pooled connections, the first of which reports an error when closed (its peer has gone)
+	var pooled []*vConn
 	if lb.wsPool != nil {
-		pooled = &vConn{id: 1}
-		lb.wsPool.Put("b0", pooled)
+		for k := 0; k < 4; k++ {
+			c := &vConn{id: k + 1, failClose: k == 0}
+			pooled = append(pooled, c)
+			lb.wsPool.Put(fmt.Sprintf("b%d", (k/3)%nb), c)
+		}
 	}
 	time.Sleep(time.Duration(delayUs) * time.Microsecond)
 	done := make(chan time.Duration, stoppers)
@@ -930,7 +961,11 @@ func stopScenario(w []string) string {
 	defer mu.Unlock()
 	res := fmt.Sprintf("stop returned within=%v late=%d", worst < 3*time.Second, late)
 	if pooled != nil {
-		res += fmt.Sprintf(" pooledClosed=%v", pooled.closed)
+		all := true
+		for _, c := range pooled {
+			all = all && c.closed
+		}
+		res += fmt.Sprintf(" pooledClosed=%v", all)
 	}
 	return res
 }
